@@ -110,6 +110,8 @@ pub struct Fmt {
     pub comments: bool,
     /// wrap inline runs in <span>
     pub span_wrap: bool,
+    /// span wrapping may start / end on collapsible white space (<span> b </span>)
+    pub span_edges: bool,
     /// omit optional end tags, vary attribute quoting
     pub tag_style: bool,
 }
@@ -122,6 +124,7 @@ impl Fmt {
             block_gaps: false,
             comments: false,
             span_wrap: false,
+            span_edges: false,
             tag_style: false,
         }
     }
@@ -132,6 +135,7 @@ impl Fmt {
             block_gaps: true,
             comments: true,
             span_wrap: true,
+            span_edges: false,
             tag_style: true,
         }
     }
@@ -144,8 +148,12 @@ impl Fmt {
             block_gaps: true,
             comments: false,
             span_wrap: false,
+            span_edges: false,
             tag_style: true,
         }
+    }
+    pub fn chance_pub(&mut self, num: usize, den: usize) -> bool {
+        self.chance(num, den)
     }
     fn chance(&mut self, num: usize, den: usize) -> bool {
         match &mut self.rng {
@@ -282,7 +290,7 @@ fn ser_children(
             }
         }
         // span wrapping of an inline run
-        if fmt.span_wrap && !in_pre && !is_block_node(n) && !matches!(n, Node::Space) {
+        if fmt.span_wrap && !in_pre && !is_block_node(n) && (fmt.span_edges || !matches!(n, Node::Space)) {
             if fmt.chance(1, 12) {
                 // extend over following inline, non-edge-space nodes
                 let mut j = i + 1;
@@ -291,7 +299,7 @@ fn ser_children(
                     j += 1;
                 }
                 // do not end the run on a Space (keeps edge whitespace outside)
-                while j > i + 1 && matches!(nodes[j - 1], Node::Space) {
+                while !fmt.span_edges && j > i + 1 && matches!(nodes[j - 1], Node::Space) {
                     j -= 1;
                 }
                 out.push_str("<span>");
